@@ -35,6 +35,7 @@ class StringConcatViolation:
     line_number: int
     column: int
     loop_type: str  # 'for' or 'while'
+    loop_line: int = 0  # line of the innermost enclosing loop (identifies the loop)
 
 
 # thailint: ignore-next-line[srp.violation] Uses small focused methods to reduce complexity
@@ -43,6 +44,7 @@ class PythonStringConcatAnalyzer:
 
     def __init__(self) -> None:
         """Initialize the analyzer."""
+        self._loop_line = 0
         self._string_variables: set[str] = set()
         self._non_string_variables: set[str] = set()  # Lists, numbers, etc.
 
@@ -166,10 +168,16 @@ class PythonStringConcatAnalyzer:
             current_loop = in_loop
             current_reset_vars = reset_vars
 
+        enclosing_loop_line = self._loop_line
+        if loop_type:
+            self._loop_line = getattr(node, "lineno", 0)
+
         self._check_for_string_concat(node, violations, current_loop, current_reset_vars)
 
         for child in ast.iter_child_nodes(node):
             self._find_concat_in_loops(child, violations, current_loop, current_reset_vars)
+
+        self._loop_line = enclosing_loop_line
 
     def _get_loop_type(self, node: ast.AST) -> str | None:
         """Get the loop type if node is a loop, else None."""
@@ -304,6 +312,7 @@ class PythonStringConcatAnalyzer:
                 line_number=node.lineno,
                 column=node.col_offset,
                 loop_type=loop_type,
+                loop_line=self._loop_line,
             )
         )
 
@@ -353,13 +362,15 @@ class PythonStringConcatAnalyzer:
         Returns:
             Deduplicated list with one violation per variable per loop
         """
-        # Group by variable name and keep first occurrence
-        seen: set[str] = set()
+        # Keep the first occurrence per variable AND loop: the same variable name accumulated
+        # in another loop (another function, a second copy of the code) is another finding
+        seen: set[tuple[str, int]] = set()
         result: list[StringConcatViolation] = []
 
         for v in violations:
-            if v.variable_name not in seen:
-                seen.add(v.variable_name)
+            key = (v.variable_name, v.loop_line)
+            if key not in seen:
+                seen.add(key)
                 result.append(v)
 
         return result
